@@ -54,7 +54,7 @@ def tkLoop (cfg : Cfg) (env : MacroEnv) : Nat → RState → List String → Str
     | .exit => "exit"
     | .fuel => "fuel"
     | .tok tt text r' =>
-      let one := s!"{typeNum tt}:" ++ (if tt == .number then "-" else tohex (cstr text))
+      let one := s!"{typeNum tt}:" ++ (if tt == .number || tt == .eof then "-" else tohex (cstr text))
       if tt == .eof then "t=" ++ ",".intercalate (one :: acc).reverse ++ " " ++ stateStr r'
       else tkLoop cfg env n r' (one :: acc)
 
